@@ -2116,6 +2116,26 @@ func (db *DB) CommitJournal(ctx context.Context, mode JournalMode) (err error) {
 		return fmt.Errorf("cannot read database size: %w", err)
 	}
 
+	// SQLite does not write pages that it allocated and freed again within the
+	// transaction but the database can still grow over them. Such pages only
+	// exist as a zero-filled gap in the file: capture them like written pages so
+	// that they are part of the LTX file and of the database checksum.
+	if commit > prevPageN {
+		buf := make([]byte, db.pageSize)
+		for pgno := prevPageN + 1; pgno <= commit; pgno++ {
+			if _, ok := db.dirtyPageSet[pgno]; ok || pgno == ltx.LockPgno(db.pageSize) {
+				continue
+			}
+			if _, err := internal.ReadFullAt(dbFile, buf, int64(pgno-1)*int64(db.pageSize)); err != nil {
+				return fmt.Errorf("cannot read unwritten database page: pgno=%d err=%w", pgno, err)
+			}
+			db.chksums.mu.Lock()
+			db.setDatabasePageChecksum(pgno, ltx.ChecksumPage(pgno, buf))
+			db.chksums.mu.Unlock()
+			db.dirtyPageSet[pgno] = struct{}{}
+		}
+	}
+
 	// Build sorted list of dirty page numbers.
 	pgnos := make([]uint32, 0, len(db.dirtyPageSet))
 	for pgno := range db.dirtyPageSet {
